@@ -50,7 +50,7 @@ def run(chk: lib.Check):
     pr = chk.prove()
     quick = chk.tier == "quick"
     stats = collections.Counter()
-    ins_cases, py_cases, del_cases = [], [], []
+    ins_cases, py_cases, del_cases, fixed_cases, slice_cases = [], [], [], [], []
 
     import tempfile
     for spec0 in corpus.model_specs(chk.tier)[: (1 if quick else 3)]:
@@ -86,8 +86,12 @@ def run(chk: lib.Check):
                         inter = sum(1 for f in flags[first:last + 1] if not f)     # other kinds between members
                     except Exception:  # noqa: BLE001
                         inter = 0
+                if kind == "link" and n >= 1:
+                    # link elements of another relation sharing the XML tag (e.g. involved_functions / involved_links of a chain)
+                    XSI0 = "{http://www.w3.org/2001/XMLSchema-instance}type"
+                    inter = sum(1 for c in o._element if isinstance(c.tag, str) and c.tag == acc.tag and c.get(XSI0) not in acc.xtypes)
                 cur = by_rel.get(k)
-                score = (min(inter, 1), min(n, 3))
+                score = (min(inter, 1) + (2 if getattr(acc, "list_extra_args", {}).get("fixed_length") else 0), min(n, 3))
                 if cur is None or score > cur[4]:
                     by_rel[k] = (o, acc, n, kind, score)
         per_kind = collections.defaultdict(list)
@@ -100,7 +104,7 @@ def run(chk: lib.Check):
             targets += lst[: (15 if quick else 80)]
         for (clsname, name), (o, acc, n0, kind, _score) in targets:
             cls = getattr(acc, "class_", None)
-            seq_len = 8 if quick else 14
+            seq_len = (8 if quick else 14) * (4 if getattr(acc, "list_extra_args", {}).get("fixed_length") else 1)
             try:
                 lst = getattr(o, name)
             except Exception:  # noqa: BLE001
@@ -116,12 +120,16 @@ def run(chk: lib.Check):
                     # object is not a list operation these accessors define — exercised through create / del / item assignment only
                     opk = rng.choice(["create_rel", "del", "setitem", "foreign"])
                 else:
-                    opk = rng.choice(["insert", "insert", "append", "del", "create", "setitem", "insert_dup", "foreign", "clear", "two_handles"])
+                    opk = rng.choice(["insert", "insert", "append", "del", "create", "setitem", "insert_dup", "foreign", "clear", "two_handles",
+                                      "slice_set", "slice_del", "assign"])
+                if fixed and rng.random() < 0.5:
+                    opk = rng.choice(["slice_set", "slice_set", "slice_del", "setitem", "assign"])     # length-changing forms of assignment
                 before_all = elements_snapshot(model, A)
                 before_order = child_order(model, A)
                 desc = f"{clsname}({o.uuid}).{name}[{kind}]"
                 expected = list(ref)
                 outcome = "ok"
+                fop = None       # encoding of the operation for the fixed-length model (Model/Lists.v fixed_step)
                 allowed_new: set[int] = set()
                 try:
                     if opk in ("insert", "append", "insert_dup"):
@@ -140,6 +148,8 @@ def run(chk: lib.Check):
                         idx = n if opk == "append" else rng.choice(list(range(-n - 2, n + 3)))
                         desc += f".insert({idx}, {donor.uuid})" if opk != "append" else f".append({donor.uuid})"
                         expected.insert(idx, donor.uuid)
+                        if opk != "insert_dup":
+                            fop = [4, idx, donor.uuid]
                         if opk == "append":
                             lst.append(donor)
                         else:
@@ -150,6 +160,7 @@ def run(chk: lib.Check):
                         idx = rng.choice(list(range(-n, n)))
                         desc += f": del [{idx}]"
                         del expected[idx]
+                        fop = [3, idx]
                         del lst[idx]
                     elif opk == "two_handles":
                         if kind not in ("link", "typecast"):
@@ -199,7 +210,49 @@ def run(chk: lib.Check):
                             continue   # replacing a contained object deletes it: covered by C09
                         desc += f"[{idx}] = {donor.uuid}"
                         expected[idx] = donor.uuid
+                        fop = [0, idx, donor.uuid]
                         lst[idx] = donor
+                    elif opk in ("slice_set", "slice_del", "assign"):
+                        if kind in ("direct", "role") and not (fixed and n == fixed):
+                            continue     # replacing contained objects deletes them: covered by C09 (a full fixed-length list must refuse)
+                        a_, b_ = sorted((rng.randint(-n - 1, n + 1), rng.randint(-n - 1, n + 1)))
+                        if rng.random() < 0.3:
+                            a_ = None
+                        if rng.random() < 0.3:
+                            b_ = None
+                        donors = []
+                        if opk != "slice_del":
+                            for _k in range(rng.choice([0, 1, 1, 2])):
+                                d_ = runner.pick(lambda x: (cls is None or isinstance(x, cls)) and x.uuid not in ref and x._element is not o._element
+                                                 and all(x.uuid != y.uuid for y in donors)
+                                                 and model._loader.find_fragment(x._element).parts[0] == "\0")
+                                if d_ is not None:
+                                    donors.append(d_)
+                        if opk == "slice_set":
+                            desc += f"[{a_}:{b_}] = {[d_.uuid for d_ in donors]}"
+                            expected[a_:b_] = [d_.uuid for d_ in donors]
+                            if kind in ("direct", "role") and len(expected) == n:
+                                continue
+                            fop = [1, a_, b_, [d_.uuid for d_ in donors]]
+                            lst[a_:b_] = donors
+                        elif opk == "slice_del":
+                            desc += f": del [{a_}:{b_}]"
+                            del expected[a_:b_]
+                            if kind in ("direct", "role") and len(expected) == n:
+                                continue
+                            fop = [2, a_, b_]
+                            del lst[a_:b_]
+                        elif kind in ("direct", "role"):
+                            continue
+                        else:
+                            keep_ = [model.by_uuid(u_) for u_ in ref if rng.random() < 0.6]
+                            new_ = keep_ + donors
+                            rng.shuffle(new_)
+                            desc += f" = {[d_.uuid for d_ in new_]}"
+                            expected = [d_.uuid for d_ in new_]
+                            fop = [5, [d_.uuid for d_ in new_]]
+                            setattr(o, name, new_)
+                            lst = getattr(o, name)
                     elif opk == "foreign":
                         other = getattr(run, "_other", None)
                         if other is None:
@@ -221,10 +274,15 @@ def run(chk: lib.Check):
                     import traceback
                     last_tb = traceback.format_exc()[-1500:]
                 stats[f"{kind}:{opk}:{outcome}"] += 1
+                if __import__("os").environ.get("C08_DEBUG"): print("DBG", desc, outcome)
                 chk.note_case((spec0["name"], clsname, name, opk, si), nontrivial=True)
                 after_all = elements_snapshot(model, A)
                 fresh = uuids(getattr(o, name))
                 inhand = uuids(lst)
+                if fixed and n == fixed and fop is not None and None not in fresh and None not in ref:
+                    num = lambda u_: int(u_.replace("-", ""), 16) % (1 << 60)      # object identity as a number
+                    enc = [fop[0]] + [([num(u_) for u_ in f_] if isinstance(f_, list) else (num(f_) if isinstance(f_, str) else f_)) for f_ in fop[1:]]
+                    fixed_cases.append(([fixed, [num(u_) for u_ in ref], enc], [outcome == "ok", [num(u_) for u_ in fresh]]))
                 if outcome == "accepted-foreign":
                     chk.violation(f"foreign-accepted:{kind}", f"{desc}: an object of a different model was accepted", {"model": spec0["name"], "op": desc})
                     ref = fresh
@@ -245,9 +303,15 @@ def run(chk: lib.Check):
                             chk.violation(f"insert-index-rejected:{kind}", f"{desc} raised IndexError; list.insert clamps any index",
                                           {"model": spec0["name"], "op": desc, "len": n})
                     continue
+                if fixed and n == fixed and len(fresh) != fixed:
+                    chk.violation(f"fixed-length-changed:{kind}:{opk}", f"{desc}: accepted, and the fixed-length relation now has {len(fresh)} members instead of {fixed}",
+                                  {"model": spec0["name"], "op": desc, "before": ref, "fresh": fresh})
+                    ref = fresh
+                    lst = getattr(o, name)
+                    continue
                 # accepted: in-hand list, fresh list and the plain Python list agree
                 if fresh != expected or inhand != expected:
-                    dupnote = "still-present" if (kind == "link" and ((opk == "del" and fresh == ref) or (opk == "clear" and fresh and set(fresh) <= set(ref)))) else "duplicates" if len(set(ref)) != len(ref) else ("rootelem" if getattr(acc, "rootelem", None) else ("neg" if "insert(-" in desc or "[-" in desc else "nonneg"))
+                    dupnote = "still-present" if (kind == "link" and ((opk == "del" and fresh == ref) or (opk in ("clear", "slice_del") and fresh and set(fresh) <= set(ref)))) else "duplicates" if len(set(ref)) != len(ref) else ("rootelem" if getattr(acc, "rootelem", None) else ("neg" if "insert(-" in desc or "[-" in desc else "nonneg"))
                     chk.violation(f"list-mismatch:{kind}:{opk}:{dupnote}",
                                   f"{desc}: python list {expected[-6:]}, in hand {inhand[-6:]}, freshly fetched {fresh[-6:]}",
                                   {"model": spec0["name"], "op": desc, "python": expected, "in_hand": inhand, "fresh": fresh, "before": ref})
@@ -256,23 +320,38 @@ def run(chk: lib.Check):
                     continue
                 # nothing else changed: every changed/removed/added element is the owner, a member/link element of this relation,
                 # a moved donor, or (for deletions) something C09 covers
-                if opk in ("insert", "append", "insert_dup", "create", "setitem") or kind in ("attr", "link"):
+                if opk in ("insert", "append", "insert_dup", "create", "setitem") or kind in ("attr", "link", "plends"):
                     own = A.H(o._element)
                     for h in set(before_all) | set(after_all):
                         b, a = before_all.get(h), after_all.get(h)
                         if b == a:
                             continue
                         ok = h == own or (a is not None and a[0] == own) or (b is not None and b[0] == own)
-                        if not ok and a is None and b is not None:
+                        XSI = "{http://www.w3.org/2001/XMLSchema-instance}type"
+                        if ok and h == own and kind in ("link", "attr", "plends") and a is not None and b is not None:
+                            # the owner itself: a link-element relation leaves its attributes alone, an attribute relation changes only its own attribute
+                            da, db = dict(a[2]), dict(b[2])
+                            diff = {k_ for k_ in set(da) | set(db) if da.get(k_) != db.get(k_)}
+                            ok = a[:2] == b[:2] and diff <= ({getattr(acc, "attr", None)} if kind != "link" else set())
+                        elif ok and h != own and kind == "link":
+                            # a child of the owner: only link elements of THIS relation (its tag and xsi:type) may come and go
+                            x_ = a or b
+                            ok = (acc.tag is None or x_[1] == acc.tag) and dict(x_[2]).get(XSI) in acc.xtypes and (a is None or b is None or a[:2] == b[:2])
+                        elif ok and h != own and kind in ("attr", "plends"):
+                            ok = False    # an attribute relation has no business with the owner's children
+                        direct_ = h == own or (a is not None and a[0] == own) or (b is not None and b[0] == own)
+                        if direct_:
+                            pass      # the owner and its children were judged above; the rules below are for deeper descendants
+                        elif not ok and a is None and b is not None:
                             # removed together with a removed member/link element of this relation
                             par = b[0]
                             while par is not None and par != own:
                                 par = before_all.get(par, (None,))[0]
                             ok = par == own
-                        if not ok and a is not None and b is not None:
+                        if not direct_ and not ok and a is not None and b is not None:
                             # a moved donor's descendants do not change; an element elsewhere did
                             ok = False
-                        if not ok and b is None and a is not None:
+                        if not direct_ and not ok and b is None and a is not None:
                             # new element below a new member (created object's children)
                             par = a[0]
                             while par is not None and par != own:
@@ -332,7 +411,13 @@ def run(chk: lib.Check):
             except Exception:  # noqa: BLE001
                 continue
             chk.note_case((spec0["name"], clsname, name, "two-handles"))
-            raw = sum(1 for c in o._element if isinstance(c.tag, str) and any(("#" + donor.uuid) in v for v in c.attrib.values()))
+            XSI_ = "{http://www.w3.org/2001/XMLSchema-instance}type"
+            base_acc = getattr(acc, "wrapped", acc)     # link elements of THIS relation only: its tag, xsi:type and link attribute
+            if getattr(base_acc, "follow", None):
+                raw = sum(1 for c in o._element if isinstance(c.tag, str) and (base_acc.tag is None or c.tag == base_acc.tag) and c.get(XSI_) in base_acc.xtypes
+                          and (c.get(base_acc.follow) or "").endswith("#" + donor.uuid))
+            else:
+                raw = 1
             if cnt != 1 or raw > 1:
                 chk.violation(f"duplicate-through-second-handle:{kind}", f"{clsname}({o.uuid}).{name}: appending {donor.uuid} through two list objects of the relation "
                               f"({second}) leaves it {cnt}x in the list and in {raw} link elements of the model", {"model": spec0["name"], "owner": o.uuid, "relation": name, "donor": donor.uuid})
@@ -402,6 +487,14 @@ def run(chk: lib.Check):
         except IndexError as ex:
             out = err_of(ex)
         del_cases.append(([i, l], out))
+        ob = lambda: prng.choice([None, prng.randint(-n - 3, n + 3), prng.randint(-n - 3, n + 3)])
+        a_, b_ = ob(), ob()
+        xs = [prng.randint(10, 19) for _ in range(prng.randint(0, 3))]
+        e = list(l); e[a_:b_] = xs
+        d = list(l); del d[a_:b_]
+        slice_cases.append(([a_, b_, xs, l], [e, l[a_:b_], d]))
+    chk.correspond("From V Require Import Model.Lists.", "w_py_slice_set", slice_cases, tag="C08_pyslice")
+    chk.correspond("From V Require Import Model.Lists.", "w_fixed_step", fixed_cases, tag="C08_fixed")
     chk.correspond("From V Require Import Model.Lists.", "w_py_insert", py_cases, tag="C08_pyins")
     chk.correspond("From V Require Import Model.Lists.", "w_py_delitem", del_cases, tag="C08_pydel")
     chk.correspond("From V Require Import Model.Lists.", "w_direct_insert", ins_cases, tag="C08_dins")
